@@ -11,6 +11,8 @@ From E57 Require Import Base.Prelude Model.Device Model.PagedWriter Model.Record
 From Coq Require Import Permutation.
 From E57 Require Import Model.Meta Model.MetaFile Model.XmlTree Model.XmlParse Model.XmlExtract
   Spec.FileSpecXml Spec.XmlRender Spec.MetaTree Proofs.SpecXml Proofs.SpecXmlExample.
+From E57 Require Import Base.Floats Model.XmlGen Spec.XgWriterOk Spec.XeMetaOk Model.WriterApi Model.WriterFull
+  Proofs.WapiFullProg Proofs.WapiFullMeta Proofs.WapiFullInv Proofs.WapiSpec Proofs.WapiFullExample Proofs.WapiSpecExample.
 
 (** The main statement.  The ONLY hypothesis about the call sequence is that the writer
     returned Ok (any list of blobs and point clouds, any prototypes, any points - valid or
@@ -146,6 +148,61 @@ Theorem C02_wellformed_xml_instance :
                   In (d, cnt) (combine (item_descriptors XmlInstance.items XmlInstance.outs) (map item_content XmlInstance.items)).
 Proof. exact writer_file_wellformed_xml_instance. Qed.
 
+(** The API-level form (slice wapi, [Proofs/WapiSpec.v]): the whole writer state machine of
+    [Model/WriterFull.v] - [writer_run] produces every byte of the file, XML included - instead
+    of [file_prog] with a given XML.  Hypotheses as in [C10_accepted_reads_back], minus the bound
+    on the XML length (the independent decoder has none): a complete program ([units]: every
+    sub-writer finalized and dropped, explicit limits for intensity / colour) of calls that are
+    values of their Rust types ([call_ok]) in which every call returned Ok; u64 / count sizes;
+    the float oracles print plain texts that parse back.  The three named hypotheses of
+    [C02_wellformed_xml] and its [item_typed] are DISCHARGED: [Hwf], [Hext] from the metadata
+    invariant of the state machine, [Hdesc] from [explains] (the descriptors the state holds are
+    the ones the binary items were published with; [rest] = free-standing blobs and image blobs
+    replaced by a later call).  [f] is what is on the device after the flush of [Drop].  The
+    decoder returns the state's metadata as the reader sees it, and every descriptor of the XML
+    decodes to the content of the item that published it; by [explains] that item is
+    [IPc (proto_dtypes proto) (body_points body)] of the [AddPointcloud] unit (all its accepted
+    [PcAddPoint] values) or [IBlob data] of the image call that set the blob. *)
+Theorem C02_api_wellformed : forall (fmt64 fmt32 : N -> xstring) (pf64 pf32 : xstr -> option N)
+    (fdiv : N -> Z -> N) (version : xstring),
+  (forall b, plain_text (fmt64 b) = true) -> (forall b, plain_text (fmt32 b) = true) ->
+  (forall b, pf64 (fmt64 b) = Some (canon64 b)) -> (forall b, pf32 (fmt32 b) = Some (canon32 b)) ->
+  string_ok (lib_version_text version) = true ->
+  forall guid tops s st rs,
+  units tops ->
+  Forall call_ok (NewWriter guid :: tops ++ [Finalize]) ->
+  wrun (writer_run fmt64 fmt32 version (NewWriter guid :: tops ++ [Finalize])) pw0 = (s, Ok (st, rs)) ->
+  Forall res_ok rs ->
+  forallb pc_u64 (ws_pcs st) = true -> forallb im_ok (ws_imgs st) = true ->
+  len (ws_exts st) < 65535 ->
+  len (d_bytes (pw_dev (fst (pw_flush s)))) < 2 ^ 64 ->
+  let f := d_bytes (pw_dev (fst (pw_flush s))) in
+  let m' := reader_view (fill_meta fmt64 fmt32 (ws_meta st)) in
+  spec_wellformed_xml pf64 pf32 fdiv f = true /\
+  exists is os xml bl cs,
+    explains tops is os (ws_pcs st) (ws_imgs st) bl /\
+    gen_root (fill_meta fmt64 fmt32 (ws_meta st)) = Ok xml /\
+    spec_decode_file_xml pf64 pf32 fdiv f = Some (m', mkDecoded xml cs) /\
+    length cs = length (meta_descriptors m') /\
+    forall d cnt, In (d, cnt) (combine (meta_descriptors m') cs) ->
+                  In (d, cnt) (combine (item_descriptors is os) (map item_content is)).
+Proof. exact api_wellformed. Qed.
+
+(** Non-vacuity: the program of [Proofs/WapiFullExample.v] (two clouds, an image with visual
+    reference and mask, a free-standing blob, an extension, texts with XML-reserved characters),
+    by evaluation of the decoder on the model's file. *)
+Theorem C02_api_wellformed_instance :
+  spec_wellformed_xml ex_pf64 ex_pf32 (fun a _ => a) ex_file = true /\
+  match spec_decode_file_xml ex_pf64 ex_pf32 (fun a _ => a) ex_file with
+  | Some (m, d) =>
+      m = reader_view (fill_meta ex_fmt64 ex_fmt32 (ws_meta ex_state)) /\
+      dec_items d = [CPoints [[VDouble b1; VDouble b2; VDouble bh; VInteger 7]; [VDouble bm3; VDouble b1; VDouble b2; VInteger 15]];
+                     CPoints [[VDouble b2; VDouble bh; VDouble bm3; VInteger 200]];
+                     CBlob [1; 2; 3; 255; 0]; CBlob [9; 9; 9]]
+  | None => False
+  end.
+Proof. exact ex_spec_instance. Qed.
+
 Print Assumptions C02_wellformed.
 Print Assumptions C02_writer_file_is_spec.
 Print Assumptions C02_decoder_inverts_encoder.
@@ -156,3 +213,5 @@ Print Assumptions C02_bounds_order_needed.
 Print Assumptions C02_instance.
 Print Assumptions C02_wellformed_xml.
 Print Assumptions C02_wellformed_xml_instance.
+Print Assumptions C02_api_wellformed.
+Print Assumptions C02_api_wellformed_instance.
